@@ -67,12 +67,44 @@ func expectedListing(objs []liveObj, prefix string, hasDelim bool, delim byte, a
 	return
 }
 
+// fsKeyOK is the key domain of the file-system backends: non-empty
+// '/'-separated segments, none equal to "." or "..", no backslash, no NUL.
+func fsKeyOK(k string) bool {
+	seg := 0
+	for i := 0; i <= len(k); i++ {
+		if i == len(k) || k[i] == '/' {
+			s := k[seg:i]
+			if s == "" || s == "." || s == ".." {
+				return false
+			}
+			seg = i + 1
+			continue
+		}
+		if k[i] == '\\' || k[i] == 0 {
+			return false
+		}
+	}
+	return true
+}
+
+// pathPrefix reports whether a is a proper path-prefix of b (a + "/" + ...).
+func pathPrefix(a, b string) bool {
+	return len(b) > len(a) && b[:len(a)] == a && b[len(a)] == '/'
+}
+
 // buildBucket creates bucket "bkt" on backend b with up to maxKeys objects
 // whose keys are free byte strings, then deletes a free subset. Returns the
 // live objects (distinct keys).
 func buildBucket(b gofakes3.Backend, maxKeys, maxKeyLen int, delim byte, hasDelim bool, printable bool) []liveObj {
-	if err := b.CreateBucket("bkt"); err != nil {
-		panic(err)
+	return buildBucketKind(b, kindMem, maxKeys, maxKeyLen, delim, hasDelim, printable)
+}
+
+func buildBucketKind(b gofakes3.Backend, kind int, maxKeys, maxKeyLen int, delim byte, hasDelim bool, printable bool) []liveObj {
+	fsKind := kind == kindFsMulti || kind == kindFsSingle
+	if kind != kindFsSingle {
+		if err := b.CreateBucket("bkt"); err != nil {
+			panic(err)
+		}
 	}
 	n := 1 + vsym.Choice("nkeys", maxKeys)
 	var live []liveObj
@@ -87,6 +119,12 @@ func buildBucket(b gofakes3.Backend, maxKeys, maxKeyLen int, delim byte, hasDeli
 		if hasDelim { // key domain of the property: no leading/trailing delimiter
 			vsym.Assume(key[0] != delim)
 			vsym.Assume(key[kl-1] != delim)
+		}
+		if fsKind {
+			vsym.Assume(fsKeyOK(key))
+			for _, o := range live {
+				vsym.Assume(!pathPrefix(o.key, key) && !pathPrefix(key, o.key))
+			}
 		}
 		body := vsym.Bytes("body", 1)
 		if _, err := b.PutObject("bkt", key, map[string]string{}, bytes.NewReader(body), 1); err != nil {
@@ -216,6 +254,70 @@ func VH_C03b_mem() {
 	if v2 {
 		vsym.Assert(v.KeyCount == int64(len(keys)+len(cps)), "C03b/keycount")
 	}
+	if len(cps) > 0 {
+		vsym.Reach("C03b/common-prefix")
+	}
+	if len(keys) > 0 {
+		vsym.Reach("C03b/contents")
+	}
+	vsym.Reach("C03b/done")
+}
+
+// VH_C03b: the listing check on the backend tier selected by "backend"
+// (bolt and fs backends do not paginate; fs backends only support '/').
+func VH_C03b() {
+	kind := backendKind()
+	h, b := newServerKind(kind)
+	fsKind := kind == kindFsMulti || kind == kindFsSingle
+	hasDelim := vsym.Choice("hasdelim", 2) == 1
+	var delim byte
+	if hasDelim {
+		delim = '/'
+		if !fsKind && vsym.Choice("delimkind", 2) == 1 {
+			delim = vsym.Byte("delim")
+			vsym.Assume(delim >= 0x20 && delim < 0x7f)
+		}
+	}
+	live := buildBucketKind(b, kind, vsym.Param("maxkeys", 2), vsym.Param("maxkeylen", 3), delim, hasDelim, true)
+	pl := vsym.Choice("prefixlen", vsym.Param("maxprefix", 2)+1)
+	prefix := vsym.String("prefix", pl)
+	for j := 0; j < pl; j++ {
+		vsym.Assume(prefix[j] >= 0x20 && prefix[j] < 0x7f)
+	}
+	if hasDelim && pl > 0 {
+		vsym.Assume(prefix[0] != delim)
+	}
+	if fsKind && pl > 0 {
+		// the fs backends turn the prefix into a directory path: its complete
+		// segments must be legal key segments (".", ".." and empty segments are
+		// C10's subject), and so must the trailing partial segment
+		if prefix[pl-1] == '/' {
+			vsym.Assume(fsKeyOK(prefix[:pl-1]))
+		} else {
+			vsym.Assume(fsKeyOK(prefix))
+		}
+	}
+	q := url.Values{}
+	if pl > 0 {
+		q.Set("prefix", prefix)
+	}
+	if hasDelim {
+		q.Set("delimiter", string([]byte{delim}))
+	}
+	v2 := vsym.Choice("v2", 2) == 1
+	if v2 {
+		q.Set("list-type", "2")
+	}
+	r := Do(h, Req{Method: "GET", Path: "/bkt", Query: q, Header: http.Header{}})
+	vsym.Assert(r.Code() == 200, "C03b/status")
+	v := r.List()
+	vsym.Assert(v.OK, "C03b/document")
+	keys, sizes, etags, cps := expectedListing(live, prefix, hasDelim, delim, "")
+	vsym.Assert(sameStrings(v.Keys, keys), "C03b/contents-keys")
+	vsym.Assert(sameStrings(v.Prefixes, cps), "C03b/common-prefixes")
+	vsym.Assert(sameInt64s(v.Sizes, sizes), "C03b/sizes")
+	vsym.Assert(sameStrings(v.ETags, etags), "C03b/etags")
+	vsym.Assert(!v.IsTruncated, "C03b/not-truncated")
 	if len(cps) > 0 {
 		vsym.Reach("C03b/common-prefix")
 	}
